@@ -112,7 +112,7 @@ mod k {
         let r = Config::parse_policies(&y);
         match k {
             KIND_ARR_EMPTY => assert!(matches!(&r, Ok(v) if v.is_empty()), "parse_policies: [] is no policies"),
-            KIND_ARR_HASH_EMPTY => assert!(matches!(&r, Ok(v) if v.len() == 1 && !v[0].match_all && v[0].match_subnet.is_none() && v[0].apply_address.is_none() && v[0].policies.is_empty()), "parse_policies: [{}] is one policy with every default"),
+            KIND_ARR_HASH_EMPTY => assert!(matches!(&r, Ok(v) if v.len() == 1 && !v[0].match_all && v[0].match_subnet.is_none() && v[0].apply_address.is_none() && v[0].policies.is_empty()), "parse_policies: a list of one empty mapping is one policy with every default"),
             _ => assert!(is_invalid_config(&r), "parse_policies refuses non-lists and non-mapping entries"),
         }
         std::mem::forget(r);
@@ -126,7 +126,7 @@ mod k {
     #[kani::stub(std::hash::RandomState::new, fixed_random_state)]
     fn c19_dhcp_parsers_wrong_type() {
         let k: u8 = kani::any();
-        kani::cover!(k == 11, "[{}]");
+        kani::cover!(k == 11, "a list of one empty mapping");
         kani::cover!(k == 9, "[]");
         kani::cover!(k == 1, "integer");
         match k {
